@@ -51,7 +51,11 @@ def gen_history(rng, depth, with_expr=True):
         elif k == 'O':
             ops.append(['O', nm, rng.randrange(n), val()])
         elif k == 'F':
-            ops.append(['F', nm, [val() for _ in range(n)], rng.choice(['add', 'item'])])       # a feature computed by a function, through addAnalyticalFeature or track[n] = f
+            vals = [val() for _ in range(n)]
+            if rng.random() < 0.35:                 # a function that reaches beyond the track (looks two fixes ahead, or fails on some fix): the value there is undefined (NaN)
+                for i in rng.choice([list(range(max(0, n - 2), n)), [0], [rng.randrange(n)], list(range(n))]):
+                    vals[i] = None
+            ops.append(['F', nm, vals, rng.choice(['add', 'item'])])       # a feature computed by a function, through addAnalyticalFeature or track[n] = f
         else:
             # an expression over the names currently plausible; assignment or not
             tree = C02.gen_tree(rng, rng.randint(1, 2))
@@ -111,8 +115,11 @@ def run_impl(case):
             elif k == 'O':
                 tr[nm, op[2]] = float(op[3])
             elif k == 'F':
-                vals = [float(v) for v in op[2]]
-                f = lambda track, i, vals=vals: vals[i]
+                vals = list(op[2])
+                def f(track, i, vals=vals):
+                    if vals[i] is None:
+                        raise IndexError('beyond the end of the track')
+                    return float(vals[i])
                 if op[3] == 'item' and nm not in ('x', 'y', 'z'):
                     tr[nm] = f
                 else:
@@ -217,7 +224,7 @@ def oracle(case, obs):
                 spec[nm] = list(spec[nm]); spec[nm][op[2]] = float(op[3])
         elif k == 'F':
             if nm not in virt:
-                spec[nm] = [float(v) for v in op[2]]
+                spec[nm] = [nan if v is None else float(v) for v in op[2]]
         else:
             if st['err'] is not None:
                 return None
